@@ -51,9 +51,9 @@ def run(ck):
                 if len(frees) != len(fr): w2b.append(f'frees {[f[2] for f in frees]}')
                 if len(fr) > 1: w2b.append(f'buffer freed {len(fr)} times')
                 if nonnull and len(fr) != 1: w2b.append(f'buffer non-NULL but freed {len(fr)} time(s)')
-                if null and fr: w2b.append('free on the NULL branch')
                 # freeing it exactly once without a NULL test is fine on every edge: the pointer was NULL-initialised and free(NULL) does nothing
-                if not nonnull and not null and len(fr) != 1: w2b.append('path returns without testing/freeing the buffer')
+                # (free(NULL) does nothing, so a free on a branch where the pointer is known to be NULL is harmless too)
+                if not nonnull and len(fr) == 0 and not null: w2b.append('path returns without testing/freeing the buffer')
                 if fr:
                     j = p.events.index(fr[0])
                     used = [x for x in p.events[j + 1:] if any(out in s for s in eavobj.event_values(x))]
